@@ -420,6 +420,7 @@ func (bkmEngine) execute(sc *Scenario) *Outcome {
 		}
 		post, postClass, rawAfter := readDB(db)
 		out.Log = append(out.Log, "db "+fnv(normRoot(rawAfter, root)))
+		out.measure("database_states", fnv(normRoot(rawAfter, root)))
 		errFault := res.Fired["write_error"] > 0 || res.Fired["read_error"] > 0 || res.Fired["meta_error"] > 0
 		faulted := res.Killed || res.Fired["torn_write"] > 0 || (errFault && res.Failed)
 		outcome := "ok"
